@@ -192,3 +192,9 @@ Definition stall_agree (c : stall_case) : bool :=
 Definition stall_spec (c : stall_case) : bool :=
   N.eqb (sl_stuck c) 0 && sl_hot_after_ok c && N.eqb (sl_failed c) 0 && (if sl_recv_err c then sl_resub c else true).
 Definition stall_check (c : stall_case) : bool * bool := (stall_agree c, stall_spec c).
+
+(** ---- C07, random concurrent mix on the running code (with the race detector in the thorough tier) ---- *)
+Record stress_case := { st_races : N; st_bad : N; st_unfinished : bool; st_lookups : N }.
+(** no report of the race detector, every lookup returned a value xor an error, everything returned *)
+Definition stress_spec (c : stress_case) : bool := N.eqb (st_races c) 0 && N.eqb (st_bad c) 0 && negb (st_unfinished c).
+Definition stress_check (c : stress_case) : bool * bool := (true, stress_spec c).
